@@ -1895,9 +1895,24 @@ class Interp:
         keyed = []
         for v in items:
             kv = self.call(key, [v], {}) if key is not None else v
-            if not isinstance(kv, (str, int, float, tuple)):
+            if not isinstance(kv, (str, int, float, tuple)) and not is_sym_num(kv):
                 raise Unsupported("sort key is not concrete: %r" % (kv,))
             keyed.append((kv, v))
+        if any(is_sym_num(kv) for kv, _ in keyed):
+            # symbolic numeric keys: stable insertion sort, every comparison forks the path
+            if not all(is_sym_num(kv) or isinstance(kv, (int, float)) for kv, _ in keyed):
+                raise Unsupported("sort keys of mixed kinds")
+            out = []
+            for kv, v in keyed:
+                pos = len(out)
+                while pos > 0:
+                    before = out[pos - 1][0]
+                    less = self.truthy(self.compare(ast.Gt() if reverse else ast.Lt(), kv, before), "sort")
+                    if not less:
+                        break
+                    pos -= 1
+                out.insert(pos, (kv, v))
+            return [v for _, v in out]
         keyed.sort(key=lambda p: p[0], reverse=bool(reverse))
         return [v for _, v in keyed]
 
